@@ -5,7 +5,7 @@ import ast
 import re
 from ..model import Repo, AnalysisError, norm
 from ..report import Check
-from ..cfg import CFG, ReachingDefs
+from ..cfg import CFG, ReachingDefs, decompose
 
 try:  # E7: regex syntax trees (CPython's own parser, nothing is matched)
     import re._parser as sre_parse
@@ -218,7 +218,8 @@ def run(repo: Repo, chk: Check):
             # the arm hands back the folded constant and nothing of a call sequence can follow it
             after = [b for b, lab in hcfg.succ[n.id] if isinstance(lab, tuple) and lab[0] != "exc" and lab[1] is True]
             reach = hcfg.reachable(start=after[0]) if after else set()
-            arm_ok = "IC10Operand(data.constant_value)" in txt and not any(e.id in reach for e in emits)
+            import re as _re
+            arm_ok = bool(_re.search(r"IC10Operand\((\w+(\._ndata)?)\.constant_value\)", txt)) and not any(e.id in reach for e in emits)
     chk.judge("R12.b", "generate_code:handle_call:constexpr call yields the constant operand", arm_ok, "constexpr arm does not return IC10Operand(data.constant_value)", None,
               f"{g.path}:{hc.lineno}")
     # ---------------------------------------------------------------- R12.c template
@@ -296,6 +297,25 @@ def run(repo: Repo, chk: Check):
                 gs = [(t_, p_) for i_ in ids_[:1] for t_, p_ in ecfg.guards(i_) if isinstance(t_, ast.expr)] + list(expr_guards(use, ev))
                 main_only = any((norm(t_) in (f"{svar} == ''", f"'' == {svar}", f"not {svar}") and p_) or (norm(t_) in (f"{svar} != ''", f"'' != {svar}", svar) and not p_)
                                 for t_, p_ in gs)
+                if not main_only:
+                    # the loop variable is given the wrapped text first, for every library:   if <scope> != '': <funcs> = 'class ..' + <indented>   (no else arm).
+                    # The text as it came from the table then reaches this place only for the main module
+                    st_ = use
+                    while getattr(st_, "parent", None) is not None and not isinstance(st_, ast.stmt):
+                        st_ = st_.parent
+                    blk = None
+                    par_ = getattr(st_, "parent", None)
+                    for fld_ in ("body", "orelse", "finalbody"):
+                        if par_ is not None and isinstance(getattr(par_, fld_, None), list) and any(x is st_ for x in getattr(par_, fld_)):
+                            blk = getattr(par_, fld_)
+                    for prev in (blk[:next(i_ for i_, x in enumerate(blk) if x is st_)] if blk else []):
+                        if isinstance(prev, ast.If) and not prev.orelse and any(
+                                (norm(t_) in (f"{svar} != ''", f"'' != {svar}", svar) and p_) or (norm(t_) in (f"{svar} == ''", f"'' == {svar}", f"not {svar}") and not p_)
+                                for t_, p_ in decompose(prev.test, True)) and len(decompose(prev.test, True)) == 1:
+                            rebinds = [a_ for a_ in prev.body if isinstance(a_, ast.Assign) and len(a_.targets) == 1 and isinstance(a_.targets[0], ast.Name) and a_.targets[0].id == fvar]
+                            wrapped = rebinds and all("class " in norm(a_.value) and svar in {x.id for x in ast.walk(a_.value) if isinstance(x, ast.Name)} for a_ in rebinds)
+                            if wrapped:
+                                main_only = True
                 chk.judge("R12.c", "utils:eval_constexpr:functions of a library module enter the script only inside 'class <module>:'", main_only,
                           f"the source of the constexpr functions of every scope ({fvar}) is put into the script at the top level, also for a library module ({svar} != ''): a "
                           f"library's function replaces a function of the same name of the main program, whose calls then return the library's value",
